@@ -10,14 +10,18 @@ DRV = 'drv_c03'
 
 REGISTRY = {
     'id': 'C03',
-    'text': 'Lean: the two encodings of every +1 ion agree (kernel evaluation of the adduct parser over the generated tables), chem_mass is '
-            'linear over merge/scale/zero-dropping, averagine estimation is mass-exact over Q, and the model of mass() equals '
-            'chem_mass(comp_mass().composition) + delta + k*eps exactly (eps = PROTON_MASS - (m(1H) - m_e), |eps| <= 2e-8) for every '
-            'annotation whose modifications resolve consistently; models of comp_mass / comp / _sequence_comp / _pop_delta_mass_mods / '
+    'text': 'Lean (12 theorems): the two encodings of every +1 ion agree (ion_tables_agree, kernel evaluation of the adduct parser model '
+            'over the generated tables); chem_mass is linear over addition / scaling / merge_dicts / zero-dropping and equals the linear '
+            'form on known elements; averagine estimation is mass-exact over Q (estimate_comp_mass); and mass_eq_compMass_partial: the model '
+            'of mass() equals chem_mass(comp_mass().composition) + delta + loss + k*eps EXACTLY over Q (eps = PROTON_MASS - (m(H) - m_e), '
+            'epsilon_bound: 2e-8 mono / 1.2e-4 average; k = charge resp. charge - 1) for every annotation whose written modifications '
+            'resolve self-consistently, every placement and multiplier, 18 ion types, any charge / isotope / loss, both modes; with isotope '
+            'labels mass IS the composition path (mass_label_path). Models of comp_mass / comp / _sequence_comp / _pop_delta_mass_mods / '
             'condense_static_mods / isotope substitution are tied to /repo by differential correspondence (exact compositions, masses at '
-            '1e-7) and the implementation identity is searched directly at 1e-4 Da (mono) / 1e-3 Da + 5 ppm (average)',
+            '1e-7) and the identity is searched on the implementation at 1e-4 Da (mono) / 1e-3 Da + 5 ppm (average)',
     'note': 'trusted: Lean kernel; translator; per-modification resolution (mass, composition, delta-only) and parse_static_mods are '
-            'parameters of the model (C10 / C12); float summation error bounded by the correspondence tolerance',
+            'parameters of the model (C10 / C12). The central theorem does not cover global static rules and explicit adduct lists '
+            '(correspondence + oracle only; adduct counts != 1 are the known finding KF-C03-adduct-electron-count)',
     'technique': 'Lean 4 proof about executable model + generated tables checked by kernel evaluation + differential correspondence '
                  '+ direct identity oracle',
 }
